@@ -26,6 +26,9 @@ pub struct Case {
     pub prefixes: Vec<String>,
     /// use VecSignedHeaderRequirements (true) or SliceSignedHeaderRequirements (false)
     pub vec_reqs: bool,
+    /// when non-empty (and vec_reqs): the growable container is built by this operation history
+    /// (codes A I P add, a i p remove) and `always/ifreq/prefixes` hold the lists it must end up with
+    pub req_ops: Vec<(char, String)>,
     pub method: String,
     /// request target as given to `http::Uri` (origin-form or absolute-form)
     pub uri: String,
@@ -102,6 +105,40 @@ impl Case {
             ready,
             answer
         )
+    }
+
+    /// One-line serialisation (for handing a corpus to child processes).
+    pub fn to_line(&self) -> String {
+        let perr = |e: &ProvErr| match e {
+            ProvErr::Sig(k) => format!("E{}", k),
+            ProvErr::Foreign => "F".to_string(),
+        };
+        let hdrs = if self.headers.is_empty() { ".".to_string() } else { self.headers.iter().map(|(n, v)| format!("{}:{}", hx(n.as_bytes()), hx(v))).collect::<Vec<_>>().join(",") };
+        format!(
+            "{} {} {} {} {} {} {} {} {} {} {} {} {} {} {} {} {} {}",
+            self.s3 as u8, self.fold as u8, hx(self.region.as_bytes()), hx(self.service.as_bytes()), self.now.0, self.now.1,
+            hx_list(&self.always), hx_list(&self.ifreq), hx_list(&self.prefixes), self.vec_reqs as u8, hx(self.method.as_bytes()),
+            hx(self.uri.as_bytes()), hdrs, hx(&self.body),
+            match &self.ready_err { None => "R".to_string(), Some(e) => perr(e) },
+            self.pending_ready, self.pending_answer,
+            match &self.answer { Answer::Key { key, identity } => format!("K{}:{}", hx(key), hx(identity.as_bytes())), Answer::Err(e) => perr(e) }
+        )
+    }
+
+    pub fn from_line(l: &str) -> Case {
+        let f: Vec<&str> = l.split(' ').collect();
+        let s = |x: &str| String::from_utf8(unhx(x)).unwrap();
+        let list = |x: &str| -> Vec<String> { if x == "." { vec![] } else { x.split(',').map(|y| String::from_utf8(unhx(y)).unwrap()).collect() } };
+        let perr = |x: &str| -> ProvErr { if x == "F" { ProvErr::Foreign } else { ProvErr::Sig(KINDS.iter().find(|k| **k == &x[1..]).copied().unwrap()) } };
+        Case {
+            s3: f[0] == "1", fold: f[1] == "1", region: s(f[2]), service: s(f[3]), now: (f[4].parse().unwrap(), f[5].parse().unwrap()),
+            always: list(f[6]), ifreq: list(f[7]), prefixes: list(f[8]), vec_reqs: f[9] == "1", req_ops: vec![], method: s(f[10]), uri: s(f[11]),
+            headers: if f[12] == "." { vec![] } else { f[12].split(',').map(|h| { let (n, v) = h.split_once(':').unwrap(); (s(n), unhx(v)) }).collect() },
+            body: unhx(f[13]),
+            ready_err: if f[14] == "R" { None } else { Some(perr(f[14])) },
+            pending_ready: f[15].parse().unwrap(), pending_answer: f[16].parse().unwrap(),
+            answer: if let Some(r) = f[17].strip_prefix('K') { let (k, i) = r.split_once(':').unwrap(); Answer::Key { key: unhx(k), identity: s(i) } } else { Answer::Err(perr(f[17])) },
+        }
     }
 
     pub fn describe(&self) -> String {
